@@ -22,7 +22,12 @@ ENUM_ASSUME = ["kill = kill -9: completed system calls persist, nothing afterwar
 
 G_COMPONENTS = {"real": ["gitindex.IndexGitRepo (go-git tree walking, prepareDeltaBuild/prepareNormalBuild, git cat-file --batch child process)", "index.Builder, tombstone sidecars", "a real git repository driven by the git CLI (git 2.39)", "search.NewDirectorySearcher as observer"], "stub": ["os.* and os/exec of the instrumented packages (simos, simexec)"]}
 
-GROUPS = ["search", "ixserver", "grpcsim", "buildsim", "mergesim", "gitsim"]
+SYNC_RULE = ("one run = one generated history of 3-8 steps over 2-3 root directories with real git repositories (non-bare, bare, nested paths, root-level, nested in a worktree, same name in two roots) and one index directory: create/delete/rename/move/commit, foreign shards, and `sync` / `sync -f` / `remove SEL` / `remove -f SEL` through execute() as a simulated process. evaluations = commands executed and judged; distinct_nontrivial = distinct history prefixes (hashed) at which a command was judged.")
+SYNC_COMPONENTS = {"real": ["cmd/zoekt-local-sync execute/runSync/runRemove, discoverRepositories, planPrune, applyRemovals, indexRepositories, selectRecords (instrumented copy)", "gitindex.IndexGitRepo incl. DryRun, index.Builder, IndexState", "real git repositories created with the git CLI", "search.NewDirectorySearcher and index.ReadMetadataPathAlive as observers"],
+                   "stub": ["os.* of the instrumented packages (simos: operation log, injected EIO, kill points)", "flock is real (one command at a time)"]}
+SYNC_ASSUME = ["kill = kill -9 (completed system calls persist)", "histories are sampled by seed; -branches is left at its default (HEAD)"]
+
+GROUPS = ["search", "ixserver", "grpcsim", "buildsim", "mergesim", "gitsim", "syncsim"]
 
 PROPS = {
     "C20": dict(
@@ -207,6 +212,26 @@ PROPS = {
         technique="deterministic simulation of histories with fault injection: seeded index/trash/tombstone layouts, assignment and clock histories through the real cleanup with a run-owned clock; model rules checked against the directory state before each cleanup; every file-system operation of a cleanup enumerated as I/O error and as kill point",
         level_text="After every cleanup of a generated history: (1) every assigned repository that was indexed with one consistent name is searchable with exactly the same documents; (2) every assigned repository that was only in the trash with no shard older than 24 h is searchable with the trashed documents; (3) no unassigned repository is searchable, and one that was indexed is now in the trash or tombstoned in its compound shard, not deleted; (4) a trashed shard disappears only if the repository's trash entry was older than 24 h at 'now', it conflicted with an indexed copy, or it was restored; no shard becomes unloadable. With an I/O error or kill at any operation of the cleanup, rule 1 still holds and the next fault-free cleanup leaves no unassigned repository searchable.",
         level_note="Samples layouts/histories; failure and kill points are enumerated exhaustively inside each sampled cleanup of the fault sub-mode.",
+    ),
+    "C33": dict(
+        group="syncsim", level="exploration",
+        rule=SYNC_RULE + " C33 evaluates the preview oracles (empty mutation log and unchanged snapshot of the index directory; announced set == performed set of the immediately following -f run).",
+        harnesses=[dict(name="C33", workers=8, quick=64, thorough=6000, quick_deadline_s=150, thorough_deadline_s=1500, ulimit_kb=24000000, env={"VERIF_GCPERCENT": "100", "VERIF_MEMLIMIT_MB": "2048", "VERIF_MIN_S": "20"})],
+        expect_probes=["preview-announced-something"],
+        components=SYNC_COMPONENTS, assumptions=SYNC_ASSUME,
+        technique="deterministic simulation of histories: seeded histories of repository/root changes and zoekt-local-sync commands executed as a simulated process whose every file-system operation is logged; previews must have an empty mutation log under the index directory and announce exactly what the same command with -f then performs",
+        level_text="For every `sync` / `remove SEL` preview in a generated history: the simulated process performs no mutating file-system operation under the index directory (create-then-delete would be seen) and a content/mtime snapshot of the directory is unchanged; the set of 'Would remove' shards equals the set of 'Removing' shards and the set of 'Would index' repositories equals the set of 'Indexed' repositories of the same command run with -f immediately afterwards on the same state; a preview fails iff the forced run fails.",
+        level_note="Samples histories (repositories added, removed, renamed, moved between roots keeping their name, committed to, foreign shards, root subsets, name/source/unknown selectors).",
+    ),
+    "C34": dict(
+        group="syncsim", level="exploration",
+        rule=SYNC_RULE + " C34 evaluates convergence after every successful `sync -f` (also after an interrupted one followed by a fault-free one), fail-before-change for duplicate names, and exactness of `remove -f`.",
+        harnesses=[dict(name="C34", workers=8, quick=64, thorough=6000, quick_deadline_s=150, thorough_deadline_s=1500, ulimit_kb=24000000, env={"VERIF_GCPERCENT": "100", "VERIF_MEMLIMIT_MB": "2048", "VERIF_MIN_S": "20"})],
+        expect_probes=["duplicate-names"], expect_faults=["kill"],
+        components=SYNC_COMPONENTS, assumptions=SYNC_ASSUME + ["model of discovery: every repository the harness created under a passed root, except repositories nested inside another repository's worktree; names = path relative to the root, base name of the root for a repository at the root, '.git' stripped from bare repositories", "up to date = for every path of `git ls-tree -r HEAD` exactly one document with the blob content, and no other document"],
+        technique="deterministic simulation of histories with fault injection: seeded repository/root/index histories through zoekt-local-sync as a simulated process, with kills and I/O errors at seeded operations of `sync -f`; the index directory is compared with a model of the discovered repositories and with git",
+        level_text="After every successful `sync -f` over a root subset the index (shard metadata and a fresh searcher) holds exactly the discovered repositories, named by relative path, with the recorded source, each with exactly the documents of its HEAD commit; with two discovered repositories of the same name the command fails with an empty mutation log under the index directory; `remove -f SEL` deletes exactly the shard files of the selected repository (by name or source), an unknown selector fails without change, removal I/O errors are reported; after a `sync -f` killed or failed at a seeded file-system operation the next fault-free `sync -f` converges.",
+        level_note="Samples histories; kill/failure points are sampled (operation number from the fault stream), not enumerated.",
     ),
     "C38": dict(
         group="buildsim", level="exploration",
